@@ -16,6 +16,7 @@ import Ww.Driver.C19
 import Ww.Driver.C09
 import Ww.Driver.C04
 import Ww.Driver.Retry
+import Ww.Driver.MemLock
 open Ww.Driver
 
 def dispatch (l : Line) : List Verdict :=
@@ -55,6 +56,7 @@ def dispatch (l : Line) : List Verdict :=
   | "mixedcfg" => handleMixedCfg l
   | "lease" => handleLease l
   | "retry" => handleRetry l
+  | "memlock" => handleMemLock l
   | "fault" => handleFault l
   | "faultdry" => [Verdict.ok]
   | "start20" => handleStart20 l
